@@ -623,10 +623,22 @@ func (s *c13Sess) startDown(n int) string {
 	s.downSent += int64(n)
 	done := make(chan error, 1)
 	u := s.user
+	frag := int(u.Serializer.Downstream.FragmentSize)
+	if frag < 1 {
+		frag = 1
+	}
+	u.out.NextChunk() // (takes the queue's lock: orders the read below after earlier writers)
+	want := u.out.NextSeqNo + uint16((n+frag-1)/frag)
 	go func() { _, err := u.Write(buf); done <- err }()
 	s.pending = done
+	// wait until the writer has queued ALL its chunks: from here on it only waits for acknowledgements, so the number of
+	// polls the transfer needs does not depend on how the writer goroutine is scheduled
 	t0 := time.Now()
-	for u.out.NextChunk() == nil {
+	for {
+		u.out.NextChunk()
+		if u.out.NextSeqNo == want {
+			return ""
+		}
 		select {
 		case err := <-done:
 			done <- err
@@ -638,7 +650,6 @@ func (s *c13Sess) startDown(n int) string {
 		}
 		time.Sleep(20 * time.Microsecond)
 	}
-	return ""
 }
 
 func (s *c13Sess) poll() string {
